@@ -5,7 +5,7 @@ CONSTANTS
     Sizes = {1, 2}
     Limits = {1, 2, 3}
     MidFlushes = {{}}
-    Faults = {"reject", "stall", "stallbody", "stalltrail", "dropb", "dropa", "refuse"}
+    Faults = {"reject", "stall", "stallbody", "stalltrail", "rstbody", "dropb", "dropa", "refuse"}
     MaxFaults = 12
     MaxRetry = 10
     DoublePop = FALSE
